@@ -1165,6 +1165,8 @@ class Interp:
                 h = Holder(v)
                 self.call_fn(d, [Ptr(h, ())])
                 v = h.val
+            if last == 'Iter' and v.ty == 'slice::Iter':
+                return
             if last in ('IntoIter',):
                 vec = v.fields[0]
                 for x in vec.alloc.val:
